@@ -108,7 +108,7 @@ Qed.
 Example C07_hyps_satisfiable :
   let h := [NewArr [1; 2]%Z; MkField 0; NdWrite 0 0 9%Z; FieldRaw 0; NdView 0; NdWrite 1 1 5%Z;
             FieldFull 7%Z; FieldAdd 0 0; FieldValRw 2; AnySetItem 3 0 8%Z; AnySame 0;
-            AnyUfuncOut 5 5; MkDiag 0] in
+            AnyUfuncOut 4 4; MkDiag 0] in
   adm_run true 2 init h = true /\
   map (obs_fld (run true 2 init h)) [0; 1; 2] = [Some [1; 2]; Some [7; 7]; Some [2; 4]]%Z /\
   obs_diag (run true 2 init h) 0 = Some [1; 2]%Z /\
